@@ -19,6 +19,20 @@ def unquote_html(s):
     return s.replace('&quot;', '"').replace('&gt;', '>').replace('&lt;', '<').replace('&amp;', '&')
 
 
+def with_alarm(fn, timeout=TIMEOUT):
+    """fn() under a SIGALRM watchdog: ('ok', value) | ('timeout', None)"""
+    old = signal.signal(signal.SIGALRM, _alarm)
+    signal.alarm(timeout)
+    try:
+        try:
+            return ('ok', fn())
+        finally:
+            signal.alarm(0)
+            signal.signal(signal.SIGALRM, old)
+    except Timeout:
+        return ('timeout', None)
+
+
 def compile_real(syntax, src, timeout=TIMEOUT):
     """returns dict(status='ok', blocks=...) | dict(status='parse-error', msg, tag, line) |
     dict(status='syntax-error') | dict(status='other', exc=...) | dict(status='timeout')"""
